@@ -753,24 +753,37 @@ class _Proxy:
         self.lock.release()
 
 
+KERNEL = dict(sleep=None, popen=None, now=None)  # overrides for kernel harnesses that run without a World
+
+
 def _time():
-    return _W.now if _W is not None else _REAL["time"]()
+    if _W is not None:
+        return _W.now
+    if KERNEL["now"] is not None:
+        return KERNEL["now"]()
+    return _REAL["time"]()
 
 
 def _sleep(s):
     if _W is None:
+        if KERNEL["sleep"] is not None:
+            return KERNEL["sleep"](s)
         return _REAL["sleep"](s)
     _W.sleep(s)
 
 
 def _popen(argv, *a, **kw):
     if _W is None:
+        if KERNEL["popen"] is not None:
+            return KERNEL["popen"](argv, *a, **kw)
         return _REAL["Popen"](argv, *a, **kw)
     return _W.popen(argv, **kw)
 
 
 def _call(argv, *a, **kw):
     if _W is None:
+        if KERNEL["popen"] is not None:
+            return KERNEL["popen"](argv, *a, **kw).returncode
         return _REAL["call"](argv, *a, **kw)
     return _W.popen(argv, **kw).returncode
 
